@@ -88,6 +88,9 @@ type Frame struct {
 	siteCount map[string]int
 	siteHit  map[*SiteSpec]int
 	callArgs map[string]Value // raw argument values of the call being processed
+	frameWhole map[string]bool
+	frameRefs  map[string][]Term
+	frameAll   bool
 }
 
 type dref struct {
@@ -453,7 +456,7 @@ func calleeName(c *ssa.CallCommon) string {
 			return funcTarget(v)
 		}
 		if v.Pkg != nil && v.Pkg.Pkg.Path() != "" {
-			return shortPkg(v.Pkg.Pkg.Path()) + "." + v.Name()
+			return v.Pkg.Pkg.Name() + "." + v.Name()
 		}
 		return v.Name()
 	case *ssa.Builtin:
@@ -773,6 +776,22 @@ func (f *Frame) enterLoop(li *loopInfo, st *State) *State {
 	nwm := f.u.sc.fresh("wm", SInt)
 	f.u.assume(hst.reach, mk(SBool, ">=", nwm, hst.wm))
 	hst.wm = nwm
+	// implicit frame invariant: the loop respects the function's modifies clause
+	if f.top && !f.frameAll && f.fc != nil {
+		for _, r := range f.loopWrites(li) {
+			cur, ok := hst.heap[r]
+			if !ok || strings.HasPrefix(r, "Gh_") || f.frameWhole[r] {
+				continue
+			}
+			h0 := f.u.heapGet(f.entrySt.heap, r)
+			if strings.HasPrefix(r, "G_") {
+				f.u.assume(hst.reach, mkEq(cur, h0))
+				continue
+			}
+			body := f.u.frameFormula(f, r, cur, h0, Term{"fr", SInt})
+			f.u.assume(hst.reach, Term{fmt.Sprintf("(forall ((fr Int)) (! %s :pattern ((select %s fr))))", body.S, cur.S), SBool})
+		}
+	}
 	// 3. assume invariant
 	over2 := map[string]Value{}
 	for _, phi := range f.headerPhis(li) {
@@ -843,6 +862,15 @@ func (f *Frame) backEdge(li *loopInfo, from *ssa.BasicBlock, cond Term, st *Stat
 			continue
 		}
 		f.u.oblige("inv-preserved", fmt.Sprintf("%s/inv-preserved#%d@b%d", base, i, f.backOrd(li, from)), inv.Text, pos, cond, t)
+	}
+	if f.top && !f.frameAll && f.fc != nil {
+		for _, r := range f.loopWrites(li) {
+			c, ok := f.u.frameCond(f, r, bst.heap, f.entrySt.heap)
+			if !ok {
+				continue
+			}
+			f.u.oblige("frame", fmt.Sprintf("%s/frame/%s@b%d", base, r, f.backOrd(li, from)), "loop respects the modifies clause in "+r, pos, cond, c)
+		}
 	}
 	if li.hasMeas {
 		ce := f.cenv(f.loopLookup(li, over, bst), bst.heap, f.entrySt.heap)
